@@ -31,14 +31,17 @@ void harness(void) {
   if (KIND == 0) ASSERT(w == 4 && out[0] == 'n' && out[1] == 'u' && out[2] == 'l' && out[3] == 'l', "assigned null serializes as null");
   if (KIND == 1) ASSERT(val ? (w == 4 && out[0] == 't') : (w == 5 && out[0] == 'f'), "assigned bool serializes as the source bool");
   if (KIND == 2) {
+    /* expected text from an independent nibble formatter */
     int64_t v = (int64_t)val;
-    uint64_t mag = v < 0 ? (uint64_t)0 - (uint64_t)v : (uint64_t)v, got = 0;
-    int64_t i = 0;
-    ASSERT(w >= 3, "hex int text has at least 0x and one digit");
-    if (w < 3) return;
-    if (v < 0) { ASSERT(out[0] == '-', "negative source keeps its sign"); i = 1; }
-    ASSERT(out[i] == '0' && out[i + 1] == 'x', "hex prefix");
-    for (i += 2; i < w; i++) { uint8_t c = out[i]; got = (got << 4) | (uint64_t)(c <= '9' ? c - '0' : c - 'A' + 10); }
-    ASSERT(got == mag, "assigned int serializes to the magnitude of the source");
+    uint64_t mag = v < 0 ? (uint64_t)0 - (uint64_t)v : (uint64_t)v;
+    uint8_t exp[24]; unsigned n = 0; int started = 0;
+    if (v < 0) exp[n++] = '-';
+    exp[n++] = '0'; exp[n++] = 'x';
+    for (int k = 15; k >= 0; k--) {
+      unsigned d = (unsigned)((mag >> (4 * k)) & 0xF);
+      if (d || started || k == 0) { exp[n++] = (uint8_t)(d < 10 ? '0' + d : 'A' + d - 10); started = 1; }
+    }
+    ASSERT(w == (int64_t)n, "assigned int serializes to the text of the source (length)");
+    if (w == (int64_t)n) for (unsigned i = 0; i < n; i++) ASSERT(out[i] == exp[i], "assigned int serializes to the text of the source");
   }
 }
